@@ -21,6 +21,7 @@ Record lawful {C} (P : policy C) (good : C -> Prop) : Prop := {
   L_good_put : forall c k v, good c -> good (cput P c k v);
   L_good_clear : forall c, good c -> good (cclear P c);
   L_some : forall c k, good c -> cmem P c k = true -> fst (cget P c k) <> None;
+  L_get_mem : forall c k v, good c -> fst (cget P c k) = Some v -> cmem P c k = true;
   L_get : forall c k k' v, good c -> lookup P (snd (cget P c k)) k' = Some v -> lookup P c k' = Some v;
   L_put : forall c k v k' v', good c -> lookup P (cput P c k v) k' = Some v' -> (k' = k /\ v' = v) \/ lookup P c k' = Some v';
   L_clear : forall c k, good c -> lookup P (cclear P c) k = None
@@ -68,6 +69,9 @@ Definition step_transparent (u c : sobs) : Prop :=
 
 Definition hist_goodb (p : pipeline) (h : list step) : bool :=
   forallb (fun q => wf_pipelineb q && roots_okb q) (hist_pipelines p h).
+(* the only side condition of the final theorems: every pipeline of the history is well-formed, i.e. accepted by
+   construction-time validation (roots_okb follows: Proofs/RootArgsFacts.v) *)
+Definition hist_wfb (p : pipeline) (h : list step) : bool := forallb wf_pipelineb (hist_pipelines p h).
 
 (* a boolean that every transparent pair of observation lists satisfies (used to refute): single values are
    compared, full_output dictionaries are not inspected *)
